@@ -546,8 +546,13 @@ def run(run):
         # a few replies come late (longer than any sensible I/O time-out a
         # client might be tempted to apply: the reply still decides)
         if run.shard == 0 and slow_replies and cfg['multi'] and \
-                beh[0] == 'reply':
-            cfg['reply_delay'] = slow_replies.pop(0)
+                beh[0] == 'reply' and isinstance(beh[1], dict):
+            # (only where heeding the reply and ignoring it lead to different
+            # outcomes)
+            p_ = (beh[1].get('version') or {}).get('protocol')
+            d_ = default if default is not None else max(A, key=order.index)
+            if p_ is not None and p_ != d_:
+                cfg['reply_delay'] = slow_replies.pop(0)
         err = None
         for attempt in range(3):
             err = negotiate(run, rng, sup, order, cfg, sup_all)
